@@ -14,6 +14,7 @@ static cJSON *args_params(const char *path, int v) { cJSON *p = cJSON_CreateObje
 void harness_guard(void)
 {
 	__CPROVER_assume(element_hashtable_create() == 0);
+	long baseline = verif_live_blocks;
 	mkpeer(&O, true); mkpeer(&A, true);
 	int v = (int)nd_range(0, 999);
 	scn_build_begin();
@@ -69,5 +70,10 @@ void harness_guard(void)
 		CHECK(count_kind(&O, K_ROUTED) == 0 && count_kind(&A, K_ROUTED) == 0 && timers_alive() == 0, "C04.refused_request_routes_nothing");
 		REACH("refused");
 	}
+	/* whatever the request did: once both peers are gone nothing stays allocated */
+	free_peer_resources(&A);
+	free_peer_resources(&O);
+	CHECK(timers_alive() == 0, "C07.no_timer_left_after_peers_are_gone");
+	CHECK(verif_live_blocks == baseline, "C07.request_leaves_nothing_allocated_after_peers_are_gone");
 	WITNESS_END();
 }
